@@ -97,8 +97,26 @@ def run(model, rep):
                 rep.check(r.outcome[1] == want, 'C16.SHEB', mi.loc(), '%s -> %r' % (label, r.outcome[1]),
                           'the shebang line, a newline, then the printed module - only when preservation is on and the source has one',
                           'minify returns %r, expected %r' % (r.outcome[1], want), key='C16.SHEB|minify-return|' + label)
+    # what the printer produced is returned as it is, whatever the line ends of the source: a printed module may contain every character str.splitlines() splits on
+    # (inside f-strings they are printed raw), and none of them may be touched after the self-check of unparse()
+    PRINTED = 'a="x\x0by\x0cz"\nb=f"p\x1cq\x1dr\x1es\x85t\u2028u\u2029v"\nc=1'
+    for ends, nl in (('LF', '\n'), ('CRLF', '\r\n'), ('CR', '\r')):
+        for shebang in (None, '#!/bin/sh'):
+            for as_bytes in (False, True):
+                for preserve in (True, False):
+                    text_src = (shebang + nl if shebang else '') + 'a = 1' + nl + 'b = 2' + nl
+                    source = text_src.encode('utf-8') if as_bytes else text_src
+                    r = apirun.run(model, kwargs={'preserve_shebang': preserve}, source=source, real_shebang=True, printed=PRINTED)
+                    label = 'printed module with raw line-separator characters, %s source with %s line ends%s, preserve_shebang=%r' % ('bytes' if as_bytes else 'text', ends, ', shebang' if shebang else '', preserve)
+                    if r.outcome[0] != 'return':
+                        rep.violation('C16.SHEB', mi.loc(), label, 'minify fails: %s' % (r.outcome,), key='C16.SHEB|printed|' + label)
+                        continue
+                    got = r.outcome[1]
+                    ok = isinstance(got, str) and got.endswith(PRINTED) and (got == PRINTED or (preserve and shebang and got[:-len(PRINTED)].rstrip('\r\n') == shebang))
+                    rep.check(ok, 'C16.SHEB', mi.loc(), label, 'the printed module is returned character for character (after the shebang line, if kept)',
+                              'minify returns %r: the text the printer produced (and unparse() verified) is altered afterwards' % (got[:80],), key='C16.SHEB|printed|' + label)
     sheb_enum(model, rep)
-    rep.floor('C16.SHEB', 17)
+    rep.floor('C16.SHEB', 40)
 
     # ---- DEC: bytes sources whose first line holds bytes that are not UTF-8 (legal under a latin-1 / cp1252 cookie on the second line): minify()
     # evaluated (pmstatic.apirun, the repository's own pattern and decoding run for real) must not fail on them
